@@ -70,5 +70,43 @@ def seq_slice(ip, s, sl):
     return SeqV(ln, lambda j: s.get(z3.simplify(j + lo)), s.kind, s.name)
 
 
+class FSetV:
+    """finite set whose members may be symbolic: a list of members that are pairwise
+    distinct under the current path condition (deduplication branches on equality)"""
+
+    def __init__(self, items):
+        self.items = list(items)
+
+    def contains(self, ip, x):
+        from .ops import b_or
+
+        return b_or(*[ip.eq(x, e) for e in self.items]) if self.items else False
+
+    def iterate(self, ip):
+        return list(self.items)
+
+    def length(self, ip):
+        return len(self.items)
+
+    def truthy(self):
+        return len(self.items) > 0
+
+    def get_attr(self, ip, name):
+        from . import interp as I
+
+        if name == "add":
+            def add(ip_, a, k):
+                if not ip_.branch(self.contains(ip_, a[0])):
+                    self.items.append(a[0])
+            return I.PyFn("add", add)
+        raise EngineError(f"set.{name} on a finite symbolic set")
+
+
 def setv_from_list(ip, items):
-    raise EngineError("set with symbolic members (finite-scope sets not modelled here)")
+    out = FSetV([])
+    for x in items:
+        c = out.contains(ip, x)
+        if c is True or (c is not False and ip.branch(c)):
+            continue
+        out.items.append(x)
+    return out
